@@ -1183,7 +1183,7 @@ class Interp:
                     # (one level of loop peeling: the first evaluation of the loop test sees the initial values only)
                     sg2 = ("back",)
                 slot = in_states.setdefault(succ, {})
-                if part and succ not in collapsed and sg2 not in slot and len(slot) >= MAX_PARTITIONS:
+                if part and succ not in collapsed and sg2 not in slot and len(slot) >= getattr(self, "max_partitions", MAX_PARTITIONS):
                     # too many partitions: collapse this block to one ordinary (joined, widened) state
                     merged = None
                     for x in slot.values():
@@ -1666,6 +1666,12 @@ def _exact(v):
     if isinstance(v, In):
         return ("i", v.lo) if v.lo == v.hi else None
     if isinstance(v, DiscrIn):
+        return None
+    if isinstance(v, Fl):
+        # a float that is definitely one infinity (ln 0, a division by an exact zero): kept apart like an exact counter, so that
+        # what is computed from it (a saturated cast, a range bound) stays exact
+        if not v.ivs and not v.nan and not v.nz and (v.pinf != v.ninf):
+            return ("f", "+inf" if v.pinf else "-inf")
         return None
     if isinstance(v, Vc):
         return ("v", v.len.lo) if v.len.lo == v.len.hi else None
